@@ -344,6 +344,27 @@ fn run(ctx: &mut Ctx) {
             }
         }
     }
+    // deeply nested and wide metadata constants: nesting 3..120 (lists and maps alternating at random), lists of up to 3000 items, 40 items per rule
+    for k in 0..ctx.tier.of(120, 1_200) {
+        let depth = 3 + (k % 118);
+        let mut v = gen_const(&mut rng, 1);
+        for level in 0..depth {
+            v = if rng.chance(1, 2) { Value::Vec(if level % 5 == 0 { vec![Value::Int(level as i128), v] } else { vec![v] }) } else { Value::Map([(format!("k{}", level % 3), v)].into_iter().collect()) };
+        }
+        let mut parts = vec![Part::Comment { indent: String::new(), body: " deep".into() }, Part::Meta { key: "tree".into(), text: value_text(&v).expect("printable"), value: Some(v), trailing_comment: None }];
+        if k % 3 == 0 {
+            let wide = Value::Vec((0..(50 + rng.below(3_000))).map(|i| Value::Int(i as i128)).collect());
+            parts.push(Part::Meta { key: "wide".into(), text: value_text(&wide).expect("printable"), value: Some(wide), trailing_comment: None });
+        }
+        if k % 4 == 0 {
+            for i in 0..40 {
+                let c = gen_const(&mut rng, 1);
+                parts.push(Part::Meta { key: format!("k{i}"), text: value_text(&c).expect("printable"), value: Some(c), trailing_comment: None });
+            }
+        }
+        parts.push(Part::Code { text: "i1".into(), trailing_comment: None });
+        judge(ctx, &parts, "i1", "\n", true, "deep-and-wide-metadata");
+    }
     // random beyond: more comment lines and items
     let n = ctx.tier.of(10_000, 100_000);
     for _ in 0..n {
